@@ -236,8 +236,8 @@ Definition node_of_ent (es : list tent) (t : tent) : vnode :=
   let isreg := kind_eqb (t_kind t) KReg in
   let isdev := kind_eqb (t_kind t) KChar || kind_eqb (t_kind t) KBlock in
   let nlink :=
-    if isdir then (if path_eqb p [] then 1 else 2) + child_dirs es p
-    else (if path_eqb p [] then 0 else 1) + links_to es p in
+    if isdir then 2 + child_dirs es p     (* "." + the link from the parent (also counted for an explicit root entry) + ".." of each sub-directory *)
+    else 1 + links_to es p in             (* its own name + every hardlink that resolves to it *)
   mkVnode (t_kind t) (stat_mode (t_kind t) (t_mode t)) (t_uid t) (t_gid t)
           (if isreg then zlen (t_data t) else 0)
           (if t_mtime t =? 0 then zero_time else t_mtime t)
